@@ -85,7 +85,7 @@ CHECKS = {
               "deductive contracts (pyvc/z3) for the pointwise operations; bounded run-time contracts for decompositions and laws"),
     "C11": _c("exploration",
               "Deductive (unbounded): 14 positional listings as definitional filters, left-to-right and right-to-left records, inversions / non-inversions as "
-              "lexicographically sorted complete pair listings, strong fixed points, 30 count/list wrappers (count = len(listing)), monotonicity tests, is_involution, maximal_decreasing_run (loop invariant over the ghost inverse), depth and major_index as sums over filters (FILTER-SUM / SUM-CONGRUENCE lemmas proved by induction). "
+              "lexicographically sorted complete pair listings, strong fixed points, 30 count/list wrappers (count = len(listing)), monotonicity tests, is_involution, maximal_decreasing_run (loop invariant over the ghost inverse), longestruns_ascending (maximal-run starts via a recursively defined run start, characterised by a lemma), depth and major_index as sums over filters (FILTER-SUM / SUM-CONGRUENCE lemmas proved by induction). "
               "Bounded: every statistic and table entry BY NAME against independent definitions on all perms <=7/8 and block-structured perms of length 9-24, holeyness on seeded "
               "perms of length 8-12 vs all 2^n position sets, orders beyond 2^53 (prescribed cycle types), fresh-result check (callers mutating returned containers), "
               "distributions, preservation tools.", _BNOTE,
